@@ -4,6 +4,8 @@ import (
 	"context"
 	"errors"
 	"time"
+
+	"github.com/form3tech-oss/f1/v2/internal/verifhook"
 )
 
 // RunFunction is a function type that represents the function to be executed by the Runner.
@@ -65,13 +67,19 @@ func (r *Runner) Start(ctx context.Context) {
 		for {
 			select {
 			case <-r.restart:
+				verifhook.Yield("rr.restart", r, 0)
 				r.schedules.startFirst()
 			case <-r.schedules.timeUntilNextSchedule():
+				verifhook.Yield("rr.next", r, 0)
 				r.schedules.startNext()
 			case <-r.schedules.currentScheduleTicker():
+				verifhook.Yield("rr.tick", r, int64(r.schedules.currentFrequency()))
 				r.runFunction(r.schedules.currentFrequency())
+				verifhook.Yield("rr.ticked", r, 0)
 			case <-schedulesCtx.Done():
+				verifhook.Yield("rr.done", r, 0)
 				r.schedules.stop()
+				verifhook.Yield("rr.exit", r, 0)
 				return
 			}
 		}
@@ -81,6 +89,7 @@ func (r *Runner) Start(ctx context.Context) {
 // Stop stopps the runner and will block until the runner is stopped
 func (r *Runner) Stop() {
 	r.cancel()
+	verifhook.Yield("rr.stop.cancelled", r, 0)
 	<-r.stopped
 }
 
